@@ -172,6 +172,9 @@ def run(ctx, rep):
     rep.floor("constant-bound rejections inspected", n_rej, 0)
 
     narrow_ledger(ctx, rep, tab)
+    # the tagged scheme stores every value through EncoderBuffer's bit writer: its shifts are part of the scheme
+    from .C17 import widenshift
+    widenshift(ctx, rep)
 
     for s_ in stale:
         rep.note("stale allow entry: " + s_)
